@@ -73,7 +73,9 @@ Verdicts ==
     l >= 1 => LET x == Trace[l] IN
         /\ (Built(x) \/ Emit("MISBUILT", [l |-> l]))
         /\ (Decided(x) \/ Emit("OPEN", [l |-> l]))
-        /\ Monitor(~Decided(x) \/ OK(x), [l |-> l])
+        /\ Monitor(~Decided(x) \/ OK(x),
+                   [l |-> l, dev |-> IF x.fam = "rtsp" /\ x.kind = "basic" /\ Has(x.pass, ":") /\ x.got = NoCred
+                                     THEN "RtspBasicPasswordWithColon" ELSE "none"])
         /\ (x.fam # "link" \/ x.wire = Wire(x.url, x.user, x.cred) \/ Emit("DRIFT", [l |-> l]))
 Accepted == TLCGet("stats").diameter - 1 = Len(Trace)
 =============================================================================
